@@ -8,7 +8,7 @@ ASSUMPTIONS = pm_prop.ASSUMPTIONS + [
     'killed (kill() or cancelling its future) after 0..2 callbacks; the model has no checkpoints, this stream is decided by the '
     'monitor on the real code alone']
 TRUSTED = pm_prop.TRUSTED
-ALPHABET = ['pause', 'play', 'kill', 'resume', 'complete', 'cancelfut', 'fail']
+ALPHABET = ['pause', 'play', 'kill', 'resume', 'complete', 'cancelfut', 'fail', 'callsoon ok']
 MONITORS = ['c04', 'c01']
 
 
